@@ -219,6 +219,9 @@ def run(pid, tier):
     import cfuncheck
     if pid in cfuncheck.LINKS and pid in cfuncheck.ENABLED:
         cfuncheck.link(rep, pid)     # translation tie: the C text of the small functions = the model, for every input
+    if pid in ("C01", "C02", "C09", "C10", "C03"):
+        import lockcheck
+        lockcheck.gate(rep, pid)     # the sequential theorems are claimed for shared tables: one critical section per call
     drv = vlib.driver_path("pfxdriver")
     if not os.path.exists(drv):
         ok, log = vlib.lake_build(["pfxdriver"])
